@@ -71,6 +71,9 @@ def mod_valid_ops(deep=False):
                 ["perl-binary-0:5.26-1.x86_64", "perl-libs-0:5.26-1.x86_64"]])
     ops.append(["modules", "Client", "i386", "some/dir/django:1.6:20180101:deadbeef", "module-django-1.6", "Client/i386/os/django.yaml", "binary", []])
     ops.append(["modules", "Server", "x86_64", "perl:5.26", "module-perl-rebuilt", "Server/x86_64/os/perl2.yaml", "binary", ["perl-tests-0:5.26-1.noarch"]])
+    # the RPM list given as a TUPLE (accepted like a list; written ["__tuple__", ...] here so that a history stays plain JSON)
+    ops.append(["modules", "Client", "i386", "perl:5.26", "module-perl", "Client/i386/os/repodata/perl.yaml", "debug",
+                ["__tuple__", "perl-debuginfo-0:5.26-1.i686"]])
     return ops
 
 
@@ -123,8 +126,12 @@ def key_of(state):
     return json.dumps(state, sort_keys=True)
 
 
+def _is_tuple_marker(a):
+    return isinstance(a, list) and a[:1] == ["__tuple__"]
+
+
 def m_step(builder, state, op):
-    return BUILDERS[builder]["model"](state, *op[1:])
+    return BUILDERS[builder]["model"](state, *[a[1:] if _is_tuple_marker(a) else a for a in op[1:]])
 
 
 def run_history(builder, hist, cycle=False):
@@ -140,7 +147,8 @@ def run_history(builder, hist, cycle=False):
     for n, op in enumerate(hist):
         state2, want, reason = m_step(builder, state, op)
         before = copy.deepcopy(getattr(obj, b["attr"]))
-        args = [shared.setdefault(json.dumps(a, sort_keys=True), copy.deepcopy(a)) if isinstance(a, (list, dict)) else a
+        args = [tuple(a[1:]) if _is_tuple_marker(a) else
+                shared.setdefault(json.dumps(a, sort_keys=True), copy.deepcopy(a)) if isinstance(a, (list, dict)) else a
                 for a in op[1:]]
         r = call(obj.add, *args)
         got = "ok" if r[0] == "ok" else r[1]
